@@ -168,6 +168,11 @@ def do_call(iso, c):
         return vlib.exn_class(e)
 
 
+def snapshot_labels(iso):
+    u = iso.units
+    return [u['pressure_mode'], u['pressure_unit'], u['loading_basis'], u['loading_unit'], u['material_basis'], u['material_unit'], u['temperature_unit']]
+
+
 def snapshot(iso):
     u = iso.units
     return dict(labels=[u['pressure_mode'], u['pressure_unit'], u['loading_basis'], u['loading_unit'], u['material_basis'], u['material_unit'], u['temperature_unit']],
@@ -383,11 +388,41 @@ def explore(rep, tier, seed):
         rp, rl, rm, tu, T, ak, mk = init
         iso = make_iso(rp, rl, rm, tu, T, ADSK[ak], MATK[mk], tag=str(hi % 7))
         s0 = snapshot(iso)
+        # every third history has SIBLINGS: other isotherms made from this one's data (its DataFrame handed to from_isotherm / to the
+        # constructor, its columns handed over as arrays). A permanent conversion changes the isotherm it is called on and no other.
+        sibs = []
+        if hi % 3 == 0:
+            import pygaps
+            try:
+                sibs.append(('from_isotherm(isotherm_data=data_raw)', pygaps.PointIsotherm.from_isotherm(iso, isotherm_data=iso.data_raw, pressure_key=iso.pressure_key, loading_key=iso.loading_key)))
+                sibs.append(('from_isotherm(pressure=column, loading=column)', pygaps.PointIsotherm.from_isotherm(iso, pressure=iso.data_raw[iso.pressure_key], loading=iso.data_raw[iso.loading_key])))
+                d = iso.to_dict()
+                sibs.append(('constructor(isotherm_data=data_raw, **to_dict())', pygaps.PointIsotherm(isotherm_data=iso.data_raw, pressure_key=iso.pressure_key, loading_key=iso.loading_key, **d)))
+            except Exception as e:  # noqa
+                rep.cov.setdefault('notes', []).append('sibling construction skipped: %r' % (e,))
+        snapl = lambda b: dict(labels=snapshot_labels(b), T=b._temperature, p=[float(x) for x in b.data_raw[b.pressure_key]], l=[float(x) for x in b.data_raw[b.loading_key]])
+        sib0 = [(how, snapl(b)) for how, b in sibs]
         steps = []
-        for c in calls:
+        for ci, c in enumerate(calls):
             pre = snapshot(iso)
             oc = do_call(iso, c)
             steps.append((pre, oc, snapshot(iso)))
+            for (how, b), (_, b0) in zip(sibs, sib0):
+                if snapl(b) != b0:
+                    rep.failure('C02:unclassified:conversion-changes-another-isotherm', 'after %r on an isotherm, the isotherm made from it by %s has changed (labels %r -> %r, first pressure %r -> %r)'
+                                % (c, how, b0['labels'], snapl(b)['labels'], b0['p'][:1], snapl(b)['p'][:1]),
+                                {'init': list(init), 'calls': [list(x) for x in calls[:ci + 1]], 'failing_step': ci, 'kind': 'conversion-changes-another-isotherm', 'sibling': how})
+                    sibs, sib0 = [], []
+                    break
+        # ... and a conversion of a sibling leaves this isotherm alone
+        if sibs:
+            post = snapshot(iso)
+            for how, b in sibs:
+                do_call(b, ('P', ('absolute', 'kPa'))); do_call(b, ('L', ('mass', 'mg'))); do_call(b, ('M', ('mass', 'kg')))
+                if snapshot(iso) != post:
+                    rep.failure('C02:unclassified:conversion-changes-another-isotherm', 'converting the isotherm made by %s changed the isotherm it was made from' % how,
+                                {'init': list(init), 'calls': [list(x) for x in calls], 'failing_step': len(calls), 'kind': 'conversion-changes-another-isotherm', 'sibling': how})
+                    break
         impl.append((s0, steps, iso))
     # ---- model
     def expected(post):
@@ -511,9 +546,28 @@ def replay(d):
     ADSK = {'full': ADS_FULL, 'nodens': ADS_NODENS, 'water': 'water', 'nitrogen': 'nitrogen'}
     iso = make_iso(tuple(init[0]), tuple(init[1]), tuple(init[2]), init[3], init[4], ADSK[init[5]], MAT_FULL, tag='r')
     print('initial', snapshot(iso)['labels'])
+    sib = None
+    if r.get('sibling'):
+        import pygaps
+        sib = pygaps.PointIsotherm.from_isotherm(iso, isotherm_data=iso.data_raw, pressure_key=iso.pressure_key, loading_key=iso.loading_key)
+        sib0 = (snapshot_labels(sib), [float(x) for x in sib.data_raw[sib.pressure_key]], [float(x) for x in sib.data_raw[sib.loading_key]])
     for c in r['calls']:
         oc = do_call(iso, (c[0], tuple(c[1])))
         s = snapshot(iso)
         print(c, '->', oc, s['labels'], s['p'][:2], s['l'][:2])
+    if sib is not None:
+        now = (snapshot_labels(sib), [float(x) for x in sib.data_raw[sib.pressure_key]], [float(x) for x in sib.data_raw[sib.loading_key]])
+        print('isotherm made by from_isotherm(isotherm_data=data_raw): before', sib0[0], sib0[1][:2], 'after', now[0], now[1][:2])
+        if now != sib0:
+            print('VIOLATION reproduced: a conversion changed another isotherm')
+            return 1
+        post = snapshot(iso)
+        for c in (('P', ('absolute', 'kPa')), ('L', ('mass', 'mg')), ('M', ('mass', 'kg'))):
+            do_call(sib, c)
+        if snapshot(iso) != post:
+            print('VIOLATION reproduced: converting the derived isotherm changed the original')
+            return 1
+        print('not reproduced')
+        return 0
     print('kind of failure recorded:', r['kind'])
     return 1
